@@ -287,9 +287,10 @@ Definition expand_schema_ref (s : st) (parents : list string) (rroot : option st
           ebind (transitive s2 rroot base ref) (fun rc => follow s2 (parents ++ [nref])%list (fst rc) (strip_frag nref) t)
       | Failed sf =>
           if o_cont OP then
-            (* json.Unmarshal allocates the *Schema before it fails: an ill-typed target leaves an EMPTY schema in
-               place of the holder (the ref is lost); a missing document or pointer leaves the holder as it was *)
-            if dfail sf then Done (set_dfail sf false, JObj []) else Done (sf, JObj m)
+            (* the holder is left as it was, whatever made the resolution fail: a missing document or pointer, or a target
+               of the wrong JSON type (json.Unmarshal allocates the *Schema before it fails on such a target; since the
+               repair of F22 the error, not the nil test, decides) *)
+            if dfail sf then Done (set_dfail sf false, JObj m) else Done (sf, JObj m)
           else Failed sf
       | OOF => OOF
       | Unsup => Unsup
